@@ -157,8 +157,7 @@ type joeReplayer struct {
 	t       *joeTrace
 	inner   sse.Replayer
 	calls   int
-	faultAt int    // the k-th call (Put or Replay) misbehaves; 0 = never
-	fault   string // "err" or "panic"
+	faults  map[int]string // the k-th call (Put or Replay) misbehaves: "err" or "panic"
 	dead    bool
 }
 
@@ -169,13 +168,11 @@ func (r *joeReplayer) pre(kind string) string {
 		r.t.fact("REPLAYER-USED-AFTER-PANIC")
 	}
 	r.calls++
-	if r.faultAt != 0 && r.calls == r.faultAt {
-		if r.fault == "panic" {
-			r.dead = true
-		}
-		return r.fault
+	f := r.faults[r.calls]
+	if f == "panic" {
+		r.dead = true
 	}
-	return ""
+	return f
 }
 
 func (r *joeReplayer) Put(m *sse.Message, topics []string) (*sse.Message, error) {
@@ -275,7 +272,17 @@ func drawScenario(rng *rand.Rand, big bool) joeScenario {
 		sc.rep = fmt.Sprintf("valid:%d", 2+rng.Intn(5))
 		sc.auto = rng.Intn(2) == 0
 	default:
-		sc.rep = fmt.Sprintf("faulty:%d:%s", 1+rng.Intn(6), pick(rng, "err", "panic"))
+		// one to three faults at increasing call numbers: errors may repeat, a panic ends the replayer's use
+		sc.rep = "faulty"
+		at := 0
+		for k, nf := 0, pick(rng, 1, 1, 2, 3); k < nf; k++ {
+			at += 1 + rng.Intn(5)
+			kind := pick(rng, "err", "panic")
+			sc.rep += fmt.Sprintf(":%d:%s", at, kind)
+			if kind == "panic" {
+				break
+			}
+		}
 	}
 	nt := 1 + rng.Intn(3)
 	drawTopics := func(allowEmpty bool) []int {
@@ -461,7 +468,11 @@ func runJoe(args []string) string {
 		}
 		rep = &joeReplayer{t: t, inner: inner}
 	case "faulty":
-		rep = &joeReplayer{t: t, faultAt: atoi(parts[1]), fault: parts[2]}
+		// faulty:<k>:<err|panic>[:<k>:<err|panic>…]
+		rep = &joeReplayer{t: t, faults: map[int]string{}}
+		for i := 1; i+1 < len(parts); i += 2 {
+			rep.faults[atoi(parts[i])] = parts[i+1]
+		}
 	}
 	joe := &sse.Joe{}
 	if rep != nil {
